@@ -17,6 +17,8 @@ A source buffer is *valid* (`SrcOK`): UTF-16 units are 16-bit; UTF-8 input is we
   `inputEmpty_last_not_pending`;
 * `read_boundary`: `read` is the total width of a prefix of the buffer's characters (never inside a
   surrogate pair / UTF-8 sequence), and re-slicing the buffer there yields the remaining characters;
+  `rest_valid` / `encRepl_rest_valid`: `&src[read..]` is valid UTF-8 again (the `str` slicing of the
+  wrapper and of the caller cannot panic);
 * `written_le_cap`, `step_fits_need`, `exists_admissible` (for every capacity there is an admissible
   stop: the scheme "check `need` bytes before each step" never overflows);
 * `unmappable_last_item`, `unmappable_reports`, `unmappable_scalar`;
@@ -54,6 +56,14 @@ theorem read_le_src_utf16 (E : EFam) (s : E.σ) (units : List Nat) (last : Bool)
   have h3 : widthSum (itemsOfSrc true units) = units.length := items16_widthSum units
   rw [h1, widthSum_append] at h3
   omega
+
+/-- **the unconsumed rest is a valid buffer again**: `&src[read..]` is a `&str` (slicing there does
+not panic; re-pushing it is legitimate) resp. a buffer of 16-bit units -/
+theorem rest_valid (E : EFam) (utf16 : Bool) (s : E.σ) (src : List Nat) (last : Bool) (budget : Budget)
+    (hsrc : SrcOK utf16 src) : SrcOK utf16 (src.drop (ecall E utf16 s src last budget).read) := by
+  have := bnd_step E utf16 last src s budget 0 (bnd_zero utf16 src)
+  simp only [List.drop_zero, Nat.zero_add] at this
+  exact this.srcOK hsrc
 
 /-- `InputEmpty` is returned only when the whole source was consumed -/
 theorem inputEmpty_consumed_all (E : EFam) (utf16 : Bool) (s : E.σ) (src : List Nat) (last : Bool)
@@ -374,6 +384,15 @@ theorem encRepl_read_boundary (E : EFam) (canAll : Bool) (ncrExtra : Nat) (utf16
   · subst ht; exact bnd_zero utf16 src
   · subst ht; exact bnd_zero utf16 src
   · exact (go_bnd E hgo (bnd_zero utf16 src)).1
+
+/-- the rest a with-replacement call leaves to the caller is a valid buffer (the intermediate values
+of `total_read`, at which the wrapper slices `&src[total_read..]`, are character boundaries as well:
+`Lemmas.EncSide.go_bnd` carries `Bnd` through every round) -/
+theorem encRepl_rest_valid (E : EFam) (canAll : Bool) (ncrExtra : Nat) (utf16 last : Bool) (cap fuel : Nat)
+    (s : E.σ) (src : List Nat) (budgets : List Budget) (t : EReplRes E.σ) (hsrc : SrcOK utf16 src)
+    (h : encRepl E canAll ncrExtra utf16 last cap fuel s src budgets = some t) :
+    SrcOK utf16 (src.drop t.read) :=
+  Bnd.srcOK (encRepl_read_boundary E canAll ncrExtra utf16 last cap fuel s src budgets t h) hsrc
 
 /-- total `read` ≤ source length -/
 theorem encRepl_read_le (E : EFam) (canAll : Bool) (ncrExtra : Nat) (utf16 last : Bool) (cap fuel : Nat)
